@@ -590,6 +590,8 @@ class C25(Property):
 
     # ------------------------------------------------------------------------------------------------------------
     def explore(self, ctx: Ctx) -> None:
+        from sfv.rt.shfake import limit_failures
+        limit_failures(ctx)
         self._setup(ctx)
         big = ctx.tier == "thorough" or ctx.mode == "search"
         lines, expect, meta = self.render_cases(ctx, 1500 if big else 300)
